@@ -23,6 +23,8 @@ pub enum Family {
     /// C10 at connection level: streamed payloads through the real dispatcher and handler
     C10C,
     C11,
+    /// C11 by enumeration: every history of length 1..4 over the id alphabet {1,2} x request kinds
+    C11X,
     C12,
     C13,
     C14,
@@ -53,6 +55,7 @@ impl Family {
             "C07X" => Family::C07X,
             "C08" => Family::C08,
             "C11" => Family::C11,
+            "C11X" => Family::C11X,
             "C12" => Family::C12,
             "C13" => Family::C13,
             "C14" => Family::C14,
@@ -80,6 +83,7 @@ impl Family {
             Family::C07X => "C07X",
             Family::C08 => "C08",
             Family::C11 => "C11",
+            Family::C11X => "C11X",
             Family::C12 => "C12",
             Family::C13 => "C13",
             Family::C14 => "C14",
@@ -107,6 +111,7 @@ pub const ALL_FAMILIES: &[Family] = &[
     Family::C07X,
     Family::C08,
     Family::C11,
+    Family::C11X,
     Family::C12,
     Family::C13,
     Family::C14,
@@ -133,6 +138,7 @@ pub fn generate(f: Family, ch: &mut Choices) -> Plan {
         Family::C07X => gen_c07x(ch),
         Family::C08 => gen_outbound(OutKind::C08, ch),
         Family::C11 => gen_c11(ch),
+        Family::C11X => gen_c11x(ch),
         Family::C12 => gen_c12(ch),
         Family::C13 => gen_outbound(OutKind::C13, ch),
         Family::C14 => gen_outbound(OutKind::C14, ch),
@@ -2036,6 +2042,127 @@ fn gen_c04x(ch: &mut Choices) -> Plan {
         plan.cfg.wr_hw = 64;
         plan.cfg.wr_lw = 16;
     }
+    plan.ending = Ending::Settle;
+    plan
+}
+
+
+// ------------------------------------------------------------------------------------------
+// C11X: every history of length 1..4 over {PUBLISH q1, PUBLISH q2, SUBSCRIBE, UNSUBSCRIBE, PUBREL} x ids {1,2}
+
+pub const C11X_MODES: u64 = 4;
+
+/// letters: servers 10 (5 kinds x 2 ids), clients 6 (PUBLISH q1, PUBLISH q2, PUBREL x 2 ids)
+pub fn c11x_alphabet_len(role: Role) -> u64 {
+    if role.is_server() { 10 } else { 6 }
+}
+
+fn c11x_block(le3: bool) -> u64 {
+    C16X_ROLES
+        .iter()
+        .map(|r| {
+            let a = c11x_alphabet_len(*r);
+            C11X_MODES * if le3 { a + a * a + a * a * a } else { a * a * a * a }
+        })
+        .sum()
+}
+
+pub fn c11x_total() -> u64 {
+    c11x_block(true) + c11x_block(false)
+}
+
+pub fn c11x_total_le3() -> u64 {
+    c11x_block(true)
+}
+
+/// Point `p` (< c11x_total()) -> leading draws [role, mode, len-1, letters...].
+pub fn c11x_point(mut p: u64) -> Vec<u32> {
+    let le3 = p < c11x_block(true);
+    if !le3 {
+        p -= c11x_block(true);
+    }
+    for (ri, r) in C16X_ROLES.iter().enumerate() {
+        let a = c11x_alphabet_len(*r);
+        let per_mode = if le3 { a + a * a + a * a * a } else { a * a * a * a };
+        let n = C11X_MODES * per_mode;
+        if p >= n {
+            p -= n;
+            continue;
+        }
+        let mode = p / per_mode;
+        let mut q = p % per_mode;
+        let len = if le3 {
+            if q < a {
+                1
+            } else if q < a + a * a {
+                q -= a;
+                2
+            } else {
+                q -= a + a * a;
+                3
+            }
+        } else {
+            4
+        };
+        let mut letters = Vec::new();
+        for _ in 0..len {
+            letters.push((q % a) as u32);
+            q /= a;
+        }
+        letters.reverse();
+        let mut v = vec![ri as u32, mode as u32, len - 1];
+        v.extend(letters);
+        return v;
+    }
+    unreachable!("c11x_point out of range")
+}
+
+fn gen_c11x(ch: &mut Choices) -> Plan {
+    let role = C16X_ROLES[ch.choose(4) as usize];
+    let mode = ch.choose(C11X_MODES as u32);
+    let len = 1 + ch.choose(4);
+    let a = c11x_alphabet_len(role) as u32;
+    let letters: Vec<u32> = (0..len).map(|_| ch.choose(a)).collect();
+    let ver = role.ver();
+    let mut plan = base_plan("C11X", role, ch);
+    plan.cut = *ch.pick(&[Cut::All, Cut::Random]);
+    // handler behaviour: 0 all immediate; 1 gated, completed in a seeded order; 2 gated, negative
+    // outcomes (v5) and some held until the closing phase; 3 gated, and PUBREL does not wait for PUBREC
+    match mode {
+        0 => plan.p_immediate = 1000,
+        1 | 3 => plan.p_immediate = 0,
+        _ => {
+            plan.p_immediate = 200;
+            plan.w_outcome = [6, 3, 0];
+            plan.p_hold = 300;
+        }
+    }
+    let mut q2_count = [0u32; 3];
+    for (i, l) in letters.iter().enumerate() {
+        let pid = 1 + (l % 2) as u16;
+        let kind = if role.is_server() { l / 2 } else { [0u32, 1, 4][(l / 2) as usize] };
+        let i = i as u32;
+        let st = match kind {
+            0 | 1 => {
+                let qos = 1 + kind as u8;
+                let mut p = mk_publish(ver, ch, i, qos, Some(pid), 2);
+                p.dup = false;
+                if qos == 2 {
+                    q2_count[pid as usize] += 1;
+                }
+                step(Pkt::Publish(p), ver, Pre::Connected)
+            }
+            2 => step(Pkt::Subscribe(rc::Subscribe { pid, props: Vec::new(), filters: vec![(format!("f/{i}"), 1)] }), ver, Pre::Connected),
+            3 => step(Pkt::Unsubscribe(rc::Unsubscribe { pid, props: Vec::new(), filters: vec![format!("f/{i}")] }), ver, Pre::Connected),
+            _ => {
+                let n = q2_count[pid as usize];
+                let pre = if mode != 3 && n > 0 { Pre::SawPubRec(pid, n) } else { Pre::Connected };
+                step(Pkt::PubRel(Ack::ok(pid)), ver, pre)
+            }
+        };
+        plan.peer.script.push(st);
+    }
+    plan.tags.push(format!("enum:mode{mode}:{}", letters.iter().map(|l| l.to_string()).collect::<Vec<_>>().join(".")));
     plan.ending = Ending::Settle;
     plan
 }
